@@ -18,7 +18,19 @@ const REP_GROUPS: &[&str] = &[
     "38;2;1;2;3", "38:2:1:2:3", "38;2;5;5;5", "38;2;38;5;1", "48;2;0;0;0", "48:2:255:255:255",
     "58;2;4;5;38", "58:2:30:1:0", "38:2::1:2:3", "48:2:0:4:5:6", "58:2:1:7:8:9", "4:0", "4:1", "4:2", "4:3", "4:4", "4:5", "10", "26", "53",
     "99", "108", "256", "65535",
+    // ':' groups are self-delimited: one with an unknown colour model names nothing and must not
+    // reach into the following parameters (audit wave 2, F28)
+    "38:1", "48:3:1:2:3", "38:4:0:1:2:3:4", "58:0", "38:9:5",
+    // ITU T.416: the colour-space form may carry further fields after r:g:b (tolerance, ...)
+    "38:2::255:0:0::0", "48:2:1:2:3:4:5", "58:2::7:8:9:0:1:2",
+    // an index followed by further sub-parameters
+    "38:5:9:1",
+    // truncated ':' forms (what they denote is left open: only oracle 2, combined == separate)
+    "38:5", "48:2", "58:2:1:2",
 ];
+
+/// groups whose denotation the reference interpreter does not decide (only the metamorphic oracle)
+const UNDECIDED_GROUPS: &[&str] = &["38:5", "48:2", "58:2:1:2"];
 
 
 
@@ -56,7 +68,9 @@ fn check_groups(groups: &[&str], with_base: bool) -> Result<Option<bool>, String
     let mut a = if with_base { BASE.to_vec() } else { vec![] };
     a.extend(seq(groups));
     a.extend_from_slice(b"x\xc3\xa9");
-    check_stream(&a, &[])?;
+    if !groups.iter().any(|g| UNDECIDED_GROUPS.contains(g)) {
+        check_stream(&a, &[])?;
+    }
     // oracle 2: separate sequences, extractor against itself
     let mut b = if with_base { BASE.to_vec() } else { vec![] };
     for g in groups {
